@@ -302,3 +302,82 @@ def spec_hash(*modules):
 def chunks(seq, n):
     for i in range(0, len(seq), n):
         yield seq[i:i + n]
+
+
+# ------------------------------------------------------------------ process isolation
+def isolated_map(worker_fn, items, nproc, wd, tag, item_timeout=120):
+    """Run worker_fn(item, progress) for every item in forked children that survive nothing:
+    native code under test may abort the interpreter (GLPK assertions) or hang.  Children append
+    JSON lines to a private file; when a child dies or exceeds item_timeout for one item, the item
+    in flight gets the result {"crash": <signal or "timeout">, "progress": <last progress value>}
+    and the remaining items are handed to a fresh child.  Returns results in item order."""
+    import multiprocessing as mp
+    import signal
+    ctx = mp.get_context("fork")
+    results = [None] * len(items)
+    todo = [list(range(k, len(items), nproc)) for k in range(nproc)]
+    todo = [t for t in todo if t]
+    gen = 0
+
+    def child(idxs, path):
+        import logging
+        logging.disable(logging.CRITICAL)
+        with open(path, "w") as fh:
+            def progress(v):
+                fh.write(json.dumps({"p": v}) + "\n")
+                fh.flush()
+            for i in idxs:
+                fh.write(json.dumps({"start": i}) + "\n")
+                fh.flush()
+                signal.alarm(item_timeout)
+                r = worker_fn(items[i], progress)
+                signal.alarm(0)
+                fh.write(json.dumps({"done": i, "r": r}) + "\n")
+                fh.flush()
+        os._exit(0)
+
+    while todo:
+        procs = []
+        for idxs in todo:
+            gen += 1
+            path = os.path.join(wd, "iso_%s_%d.jsonl" % (tag, gen))
+            p = ctx.Process(target=child, args=(idxs, path))
+            p.start()
+            procs.append((p, idxs, path))
+        todo = []
+        for p, idxs, path in procs:
+            p.join()
+            started, prog, done = None, None, set()
+            try:
+                with open(path) as fh:
+                    for line in fh:
+                        try:
+                            d = json.loads(line)
+                        except ValueError:
+                            continue
+                        if "start" in d:
+                            started, prog = d["start"], None
+                        elif "p" in d:
+                            prog = d["p"]
+                        elif "done" in d:
+                            results[d["done"]] = d["r"]
+                            done.add(d["done"])
+                            started = None
+            except OSError:
+                pass
+            try:
+                os.unlink(path)
+            except OSError:
+                pass
+            rest = [i for i in idxs if i not in done]
+            if p.exitcode != 0 and rest:
+                if started is None:
+                    started = rest[0]
+                sig = -p.exitcode if p.exitcode < 0 else p.exitcode
+                results[started] = {"crash": "timeout" if sig == 14 else "signal%d" % sig, "progress": prog}
+                rest = [i for i in rest if i != started]
+            elif rest:
+                raise Machinery("isolated worker exited 0 without finishing its items")
+            if rest:
+                todo.append(rest)
+    return results
